@@ -176,6 +176,9 @@ def run_check(mod, tier: str, seed: int) -> int:
 
     astcodec.selftest()
     tie_breaks: List[str] = list(mod.ties()) if hasattr(mod, "ties") else []
+    import surface
+
+    tie_breaks += surface.ties(prop)
 
     # 3+4. correspondence and oracle -------------------------------------------------------------
     ctx = Ctx(prop, tier, seed)
